@@ -79,6 +79,17 @@ Theorem C01_constants :
   gen.ConstGen.p9_headerLength = header_length /\ gen.ConstGen.p9_maximumLength = maximum_length.
 Proof. exact constants_agree. Qed.
 
+(** transport.go's framing as READ by go2coq (roles, not spellings): header writers/readers in order with their
+    widths (4, 1, 2 bytes), vector order header-data-payload, summands of the total length, the two size checks
+    before lookup, the FixedSize split.  Compared with a hand-written table of what Codec/Frame.v send/recv stand
+    for; an edit of send or recv re-opens this obligation (the semantic tie of Frame.v stays the differential). *)
+Theorem C01_frame_shape :
+  gen_send_header = spec_send_header /\ gen_send_vectors = spec_send_vectors /\ gen_send_total = spec_send_total /\
+  gen_recv_header = spec_recv_header /\ gen_recv_checks = spec_recv_checks /\ gen_recv_split = spec_recv_split /\
+  map (fun p => assoc_kind (snd p) gen_writers) gen_send_header = [Some (KInt 4); Some (KInt 1); Some (KInt 2)] /\
+  map (fun p => assoc_kind (snd p) gen_readers) gen_recv_header = [Some (KInt 4); Some (KInt 1); Some (KInt 2)].
+Proof. exact frame_shape_agrees. Qed.
+
 (** The only value changes.  (a) A scalar changes only if it is a permission field with bits
     above 0o7777, and then to its low 12 bits. *)
 Theorem C01_norm_only_perm : forall k v, norm_s k v <> v ->
